@@ -22,6 +22,9 @@ type cfgData struct {
 	prods     [][]string
 	closer    bool
 	canceller bool
+	// unlock: a scheduling point after every Unlock in this configuration
+	// (the window between "checked under the lock" and "started waiting")
+	unlock bool
 }
 
 type op struct {
@@ -68,7 +71,7 @@ func (harness) Configs(tier string) []xplore.Config {
 		if len(cur) == p {
 			for _, cl := range []bool{false, true} {
 				for _, ca := range []bool{false, true} {
-					d := cfgData{prods: append([][]string{}, cur...), closer: cl, canceller: ca}
+					d := cfgData{prods: append([][]string{}, cur...), closer: cl, canceller: ca, unlock: p == 1}
 					var names []string
 					for _, s := range d.prods {
 						names = append(names, strings.Join(s, ""))
@@ -118,7 +121,7 @@ func errName(err error) string {
 func (harness) Run(cfg xplore.Config, ch vrt.Chooser, trace bool) (xplore.Outcome, *vrt.Result) {
 	d := cfg.Data.(cfgData)
 	var out xplore.Outcome
-	res := vrt.Run(ch, vrt.Options{Trace: trace, FreeSwitch: true}, func() {
+	res := vrt.Run(ch, vrt.Options{Trace: trace, FreeSwitch: true, UnlockPoints: vrt.DefaultUnlockPoints || d.unlock}, func() {
 		q := coalesce.NewQueue()
 		ctx, cancel := vcontext.WithCancel(vcontext.Background())
 		nth := len(d.prods) + 1
@@ -386,7 +389,6 @@ func linearizable(all []op) string {
 			closeInv, closeRet = o.inv, o.ret
 		}
 	}
-	_ = closeRet
 	seen := map[string]bool{}
 	var rec func(done uint32, m mstate) bool
 	rec = func(done uint32, m mstate) bool {
@@ -413,7 +415,10 @@ func linearizable(all []op) string {
 			if !okOrder {
 				continue
 			}
-			overlap := all[i].kind == "ins" && closeInv >= 0 && all[i].ret > closeInv
+			// an insertion OVERLAPS the Close only if it was invoked before Close
+			// returned and returned after Close was invoked; one invoked after
+			// Close returned comes after close and must be refused
+			overlap := all[i].kind == "ins" && closeInv >= 0 && all[i].ret > closeInv && all[i].inv < closeRet
 			for _, nm := range step(m, all[i], overlap) {
 				if rec(done|1<<uint(i), nm) {
 					return true
